@@ -1,7 +1,8 @@
 From Coq Require Import Extraction ExtrOcamlBasic.
-From TK Require Import Dijkstra_Model Dijkstra_Spec Dijkstra_IsoExec Dijkstra_FibC_Model.
+From TK Require Import Dijkstra_Model Dijkstra_Spec Dijkstra_IsoExec Dijkstra_FibC_Model Dijkstra_PQC_Model.
 Extraction "c04_model.ml" full_matrix landmark_matrix landmark_matrix_fixed row_fl
   pick_first_min pick_last_min table_w
   sp_row sp_matrix sp_landmarks check_row check_matrix check_landmarks
   iso_current_exec iso_old_exec mds_ref_exec check_mds
-  full_matrix_fibc landmark_matrix_fibc full_trace_fibc landmark_trace_fibc full_events_fibc.
+  full_matrix_fibc landmark_matrix_fibc full_trace_fibc landmark_trace_fibc full_events_fibc
+  full_matrix_pqc landmark_matrix_pqc full_trace_pqc landmark_trace_pqc.
